@@ -1,10 +1,13 @@
 /* unit read_session: the TCP/TLS stream reader of coap_read_session (C05) as an inductive step over arbitrary reads.
- * COAP_RXBUFFER_SIZE (an #ifndef-guarded configuration macro) is set to 8 for this unit: every inner iteration consumes
- * at least one byte, so unwinding the inner loop 8 times is exhaustive for that read size, while the session state at
+ * COAP_RXBUFFER_SIZE (an #ifndef-guarded configuration macro) is set to RXSZ (3) for this unit: every inner iteration consumes
+ * at least one byte, so unwinding the inner loop RXSZ times is exhaustive for that read size, while the session state at
  * entry is ARBITRARY under the reader's state invariant - the contract is an inductive step that composes over any
- * number of reads, with every cut position inside the longest header (6 + 2 bytes).  Bounded by: read size 8.
+ * number of reads, with every cut position inside the longest header (6 + 2 bytes).  Bounded by: read size RXSZ.
  * Ghost byte accounting: G_in = bytes delivered by the transport, G_done = sizes of the messages completed. */
-#define COAP_RXBUFFER_SIZE 8
+#ifndef RXSZ
+#define RXSZ 3
+#endif
+#define COAP_RXBUFFER_SIZE RXSZ
 #include "coap3/coap_libcoap_build.h"
 #include "spec/vin.h"
 #include "spec/tcp_len.h"
